@@ -381,6 +381,16 @@ pub fn oracle_line(line: &str, ann: &str) -> V {
     match t.as_slice() {
         ["int", le, ty, off, hexd] => oracle_int(*le == "1", ty, nat(off), &unhex(hexd)),
         ["parse", tn, le, cls, off, hexd] => oracle_parse(tn, *le == "1", class_of(cls), nat(off), &unhex(hexd), ann),
+        ["ehdr", _sp, _hexd] => {
+            // C02: the file header decodes to exactly the values its ABI encoding holds
+            match ann.strip_prefix("expect=") {
+                Some(want) => {
+                    let got = crate::run::run_line(line);
+                    if got == want { Ok(()) } else { Err(format!("C02: file header: got `{}` expected `{}`", got, want)) }
+                }
+                None => Ok(()),
+            }
+        }
         ["table", tn, le, cls, _ops, hexd] => oracle_table(tn, *le == "1", class_of(cls), &unhex(hexd)),
         ["strtab", off, hexd] => oracle_strtab(nat(off), &unhex(hexd)),
         ["utf8", _] => Ok(()), // the implementation side *is* core::str::from_utf8
